@@ -307,14 +307,15 @@ def model_concurrent(sc):
                 if st['want'] is None:
                     continue
                 if st['want'] == 'disc' or st['want'] == payload:
-                    if st['expire'] == t:
-                        tie[0] = True
+                    if st['expire'] == t or st.get('expired_at') == t:
+                        tie[0] = True       # the Interest expires in the very instant its Data arrives (either order of processing)
                     receive(f, payload, t)
         else:
             f, token = payload
             st = F[f]
             if st['token'] != token or st['want'] is None:
                 continue
+            st['expired_at'] = t
             st['trial'] += 1
             if st['trial'] >= R:
                 st['outcome'], st['want'] = 'timeout', None
